@@ -81,7 +81,7 @@ def jobs(tier):
     for form in (1, 2):
         add("islice", 1, (3 if q else 5), 5, form=form, PR=(4 if q else 6))
     for step in (1, 2, 3):
-        add("islice", 1, (3 if q else 4), 5, form=3, PR=(4 if q else 6), p2=step)
+        add("islice", 1, (3 if q else 4), 5, form=3, PR=(3 if q else 5), p2=step, b2=False)
     for S in (1, 2, 3):
         n = {1: N1, 2: (3 if q else 4), 3: 2}[S]
         for op in ("zip", "zip_longest", "map", "chain", "chain_from"):
